@@ -10,7 +10,7 @@ class C04(FloCheck):
     pid = "C04"
     design_ref = "§6 C04"
     cfg = cfg_with(p_staged=0.3, nmain=(2, 4), nslaves=(1, 2), p_fiat=0.55, p_bid=0.6, p_status_need=0.2, p_let=0.35, p_inactive=0.4, p_period=0.35, naux=(0, 1), p_aux=0.1, p_caux=0.05,
-                   nframes=(1, 4), p_env=0.9)
+                   nframes=(1, 4), p_env=0.9, p_slave_order=0.5)
     rule = ("generated programs with several active, inactive and slave framers whose frames issue bids (start, run, stop, abort, "
             "ready on named framers and 'me') and fiats on slaves in enter / recur / exit contexts at ticks decided by the "
             "environment history, targets before and after the bidder in the order and with periods above the tick period, "
